@@ -20,7 +20,7 @@ from hypothesis import strategies as st
 
 from vlib import elf as E
 from vlib import slow, tools
-from vlib.core import Check, Discard, Inconclusive, Violation
+from vlib.core import Check, Discard, Inconclusive, OracleSplit, Violation
 from vlib.elf import Elf
 
 PAGE = 4096
@@ -299,15 +299,15 @@ class Validator:
                 lo = min(s.addr for s in tsecs)
                 hi = max(s.addr + s.size for s in tsecs)
                 al = max(max(s.addralign for s in tsecs), 1)
-                if al > 1 and tls.vaddr % al and tls.vaddr == lo and (self.who == "wild" or not self.info["script"]):
+                if al > 1 and tls.vaddr % min(al, PAGE) and tls.vaddr == lo and (self.who == "wild" or not self.info["script"]):
                     # (judged on non-empty sections only: lld 14 itself leaves p_vaddr unaligned when the strict
                     # alignment comes from an *empty* TLS section or the segment starts with an empty .tdata, and does not
                     # align TLS under -T at all: no reference there)
                     # The x86-64 TLS ABI computes TP offsets as if the template started p_align-aligned and glibc's
                     # static start-up (csu/libc-tls.c) places it so; GNU ld and lld always align the first TLS section
                     # to the segment's alignment.
-                    raise Bad("PT_TLS-vaddr-misaligned", f"PT_TLS p_vaddr={tls.vaddr:#x} is not a multiple of {al:#x}, the "
-                              f"strictest alignment of the non-empty TLS sections it holds (p_align={tls.align:#x}; TLS sections: "
+                    raise Bad("PT_TLS-vaddr-misaligned", f"PT_TLS p_vaddr={tls.vaddr:#x} is not a multiple of {min(al, PAGE):#x} , the smaller of the page size and the "
+                              f"strictest alignment of the non-empty TLS sections it holds; p_align={tls.align:#x}; TLS sections: "
                               f"{[(s.name, hex(s.addr), s.size, s.addralign) for s in e.sections if s.flags & E.SHF_TLS]})")
                 lo_all = min(s.addr for s in e.sections if s.flags & E.SHF_TLS and s.flags & E.SHF_ALLOC)
                 if tls.vaddr not in (lo, lo_all):
@@ -407,15 +407,22 @@ class Validator:
         host = None
         for l in e.loads():
             # the loader protects whole pages, so the segment may run up to the end of the load's last page
+            # and GNU ld counts a trailing .tbss (which takes no room in the PT_LOAD) in p_memsz: the segment may
+            # run past the load's end as long as it stays clear of the next PT_LOAD
             pg = max(l.align, PAGE)
-            if l.vaddr <= r.vaddr and r.vaddr + r.memsz <= (l.vaddr + l.memsz + pg - 1) // pg * pg:
+            nxt = min((o.vaddr for o in e.loads() if o.vaddr > l.vaddr and o.memsz), default=1 << 64)
+            lim = max((l.vaddr + l.memsz + pg - 1) // pg * pg, nxt)
+            if l.vaddr <= r.vaddr < l.vaddr + max(l.memsz, 1) and r.vaddr + r.memsz <= lim:
                 host = l
         if host is None:
             raise Bad("relro-not-in-load", f"PT_GNU_RELRO {r} is not inside one PT_LOAD")
         if not host.flags & E.PF_W:
             raise Bad("relro-in-readonly-load", f"PT_GNU_RELRO {r} lies in non-writable {host}")
         end = r.vaddr + r.memsz
-        if end % PAGE:
+        later_rw = [s.name for s in e.sections if s.flags & E.SHF_ALLOC and s.flags & E.SHF_WRITE and s.size
+                    and s.addr >= end and not (s.flags & E.SHF_TLS and s.type == E.SHT_NOBITS)]
+        if end % PAGE and later_rw:
+            # (lld 14 does not pad when RELRO is the last writable thing in the image)
             raise Bad("relro-end-not-page-aligned", f"PT_GNU_RELRO ends at {end:#x}: the loader protects whole pages only, "
                       "so the tail of the RELRO area stays writable")
         plo = r.vaddr // PAGE * PAGE
@@ -708,7 +715,16 @@ class C04(Check):
         if script:
             info["relro"] = info["relro"]
         verdicts = {}
+        ref_bad = {}
         for who in ("ld", "lld", "wild"):
+            if who == "wild" and ref_bad:
+                # Both references evaluated.  A rule that flags both (or the only one available) is a harness bug;
+                # a rule on which the two references disagree is an oracle split (e.g. GNU ld extends PT_GNU_RELRO
+                # over a 64 KiB-aligned .tbss into the next PT_LOAD's first page; lld does not).
+                w0, b0 = sorted(ref_bad.items())[0]
+                if len(ref_bad) == 2 or any(v is None and k not in ref_bad for k, v in verdicts.items()):
+                    raise Inconclusive(f"oracle self-check failed: rule {b0.sig} flags {w0} output: {b0.msg}")
+                raise OracleSplit(f"rule {b0.sig} flags {w0} output but not the other reference's: {b0.msg}"[:280])
             out = f"out.{who}"
             r = slow.link(who, self.link_args(case, who, secs, script, objs, helper, out), cwd=d)
             if who == "wild":
@@ -730,8 +746,11 @@ class C04(Check):
             except Bad as b:
                 if who == "wild":
                     pre = ("script-nogc/" if not (case["gc"]) else "script/") if script else ""
+                    if b.sig == "PT_TLS-vaddr-misaligned":
+                        pre = ""  # same root cause with or without a script (known finding)
                     raise Violation(pre + b.sig, f"wild ({kind}{', -T script' if script else ''}): {b.msg}", {"args": self.link_args(case, who, secs, script, objs, helper, out)})
-                raise Inconclusive(f"oracle self-check failed: rule {b.sig} flags {who} output: {b.msg}")
+                ref_bad[who] = b
+                verdicts[who] = None
         w = verdicts["wild"].elf
         nload = len(w.loads())
         opts = []
